@@ -58,7 +58,7 @@ def gen_sequence(rng, k):
         init["z0"] = [["pre", 99]]
     events = []
     arg = "A"
-    zs = iter(["z1", "z2", "z3"])
+    zs = iter(["z1", "z2", "z3", "z4", "z5"])
     for r in range(rng.randint(2, 4)):
         if r and rng.random() < 0.3:
             arg = "B" if arg == "A" else "A"
